@@ -593,7 +593,16 @@ fn client_family(cx: &mut Ctx, st: &mut Stats) {
     }
     let finals: Vec<(u16, &[u8], bool)> = vec![(200, b"final body", false), (404, b"", false), (200, b"chunked final", true), (500, b"x", false)];
     let mut s = Stats::default();
+    let mut slow_failures = 0;
     for (ci, chain) in chains.iter().enumerate() {
+        // a client that fails every exchange only after the scripted server's timeout would take half an hour to
+        // say so chain by chain: a dozen such exchanges are verdict enough
+        if slow_failures >= 12 {
+            cx.cap(format!("client family abandoned after {} exchanges that each failed only after several seconds; {} chains not run", slow_failures, chains.len() - ci));
+            break;
+        }
+        let t_chain = std::time::Instant::now();
+        let before: u64 = s.violations.values().map(|v| v.0).sum();
         let (fcode, fbody, fchunked) = finals[ci % finals.len()];
         let mut responses: Vec<(Vec<u8>, bool)> = vec![];
         let mut expect_log: Vec<String> = vec![];
@@ -656,6 +665,10 @@ fn client_family(cx: &mut Ctx, st: &mut Stats) {
                     s.outcome(format!("client-final-{}", fcode));
                 }
             }
+        }
+        let after: u64 = s.violations.values().map(|v| v.0).sum();
+        if after > before && t_chain.elapsed() > Duration::from_secs(3) {
+            slow_failures += 1;
         }
         if ci % 50 == 1 {
             s.sample(|| json!({"family": "client-redirects", "chain": format!("{:?}", chain), "final": fcode}));
